@@ -100,6 +100,8 @@ MsgGrowNeg    == "bytes.Buffer.Grow: negative count"
 MsgTooLarge   == "bytes.Buffer: too large"
 MsgNegRead    == "bytes.Buffer: reader returned negative count from Read"
 MsgBadWrite   == "bytes.Buffer.WriteTo: invalid Write count"
+MsgReaderBang == "reader panic"                      \* what the scripted reader / writer of the harness panic with
+MsgWriterBang == "writer panic"
 NilString     == <<60, 110, 105, 108, 62>>          \* "<nil>"
 
 (* ------------------------------ outcomes ------------------------------- *)
@@ -113,13 +115,16 @@ Written(a) ==
     [] a.op = "wbyte" -> <<a.c>>
     [] a.op = "wrune" -> IF ~FixWriteRune /\ a.r < 0 THEN <<a.r % 256>> ELSE Encode(a.r)
 
-(* ReadFrom: the reader is a script of steps [b |-> bytes, e |-> "nil"|"EOF"|"boom"|"neg"];  *)
-(* step i is what the i-th Read call returns ("neg": count -1).  The script ends with a      *)
-(* step whose e # "nil".                                                                     *)
+(* ReadFrom: the reader is a script of steps [b |-> bytes, e |-> kind]; step i is what the   *)
+(* i-th Read call returns.  Kinds: "nil"; "EOF" (io.EOF itself: the only error ReadFrom      *)
+(* swallows); "neg" (count -1); "panic" (the reader panics instead of returning); any other  *)
+(* kind is an error value handed back as it is ("boom", "wrapEOF" = an error that WRAPS      *)
+(* io.EOF and therefore is not io.EOF, "unexpEOF" = io.ErrUnexpectedEOF).  The script ends   *)
+(* with a step whose e # "nil".                                                              *)
 StopAt(s) == CHOOSE i \in 1..Len(s) : s[i].e # "nil" /\ \A j \in 1..(i - 1) : s[j].e = "nil"
 RECURSIVE Gather(_, _)
 Gather(s, k) == IF k = 0 THEN <<>>
-                ELSE Gather(s, k - 1) \o (IF s[k].e = "neg" THEN <<>> ELSE s[k].b)
+                ELSE Gather(s, k - 1) \o (IF s[k].e \in {"neg", "panic"} THEN <<>> ELSE s[k].b)
 
 Overwrite(d, pos, p) ==
   [i \in 1..Len(d) |-> IF i > pos /\ i <= pos + Len(p) THEN p[i - pos] ELSE d[i]]
@@ -178,9 +183,11 @@ Outs(a) ==
              e   == a.s[k].e
          IN { NoRead(data \o got,
                      IF e = "neg" THEN Panic(MsgNegRead)
+                     ELSE IF e = "panic" THEN Panic(MsgReaderBang)
                      ELSE Rp(Len(got), k, IF e = "EOF" THEN "nil" ELSE e, <<>>)) }
     [] a.op = "writeto" ->     \* the writer reports a.k bytes written and error a.e; reply.b = what it was given
          IF data = <<>> THEN { NoRead(<<>>, Rp(0, 0, "nil", <<>>)) }    \* the writer is not called
+         ELSE IF a.e = "panic" THEN { NoRead(data, Panic(MsgWriterBang)) } \* the writer panics: nothing consumed
          ELSE IF a.k > Len(data) THEN { NoRead(data, Panic(MsgBadWrite)) }
          ELSE { St(Drop(data, a.k), 0, <<>>, FALSE, dirty \/ a.k > 0,
                    Rp(a.k, 1, IF a.e # "nil" THEN a.e
@@ -188,6 +195,15 @@ Outs(a) ==
     [] a.op = "len"    -> { Same(Rp(Len(data), 0, "nil", <<>>)) }
     [] a.op \in {"bytes", "string"} -> { Same(Rp(0, 0, "nil", data)) }
     [] a.op = "nilstr" -> { Same(Rp(0, 0, "nil", NilString)) }          \* (*Buffer)(nil).String()
+    [] a.op = "poke" ->        \* bs := Bytes(); bs[a.i] = a.c  -- "the slice aliases the buffer content at least
+                               \* until the next buffer modification, so immediate changes to the slice will
+                               \* affect the result of future reads"
+         IF a.i >= Len(data) THEN { Same(Ok) }
+         ELSE { St([data EXCEPT ![a.i + 1] = a.c], lr, prev, ag, dirty, Ok) }
+    [] a.op = "pipefrom" ->    \* ReadFrom(another buffer of the same type holding a.p); reply.v = what is left there
+         { NoRead(data \o a.p, Rp(Len(a.p), 0, "nil", <<>>)) }
+    [] a.op = "pipeto" ->      \* WriteTo(another buffer of the same type holding a.p); reply.b = its content afterwards
+         { St(<<>>, 0, <<>>, FALSE, dirty \/ data # <<>>, Rp(Len(data), 0, "nil", a.p \o data)) }
     [] a.op = "rewrite" ->     \* tex only; defined while nothing has been consumed
          IF dirty THEN {}
          ELSE IF a.pos < 0 \/ a.pos > Len(data) THEN { Same(RuntimePanic), Same(Ok) }
@@ -215,6 +231,8 @@ CONSTANTS Alphabet,      \* bytes payloads are made of
           ExtraPayloads, \* ... plus these
           Sizes,         \* arguments of Read/Next/Truncate/Grow/WriteTo count/ReWrite position
           Runes,         \* arguments of WriteRune
+          RErrs,         \* how a reader script ends (besides "neg")
+          WErrs,         \* what the writer of WriteTo returns
           MaxLen         \* state constraint on Len(data)
 
 (* constants TLC's cfg syntax cannot express (negative numbers) *)
@@ -230,25 +248,31 @@ Chunks   == {p \in Payloads : Len(p) <= 512}
 Firsts   == {c \in Chunks : Len(c) <= 1 \/ c \in ExtraPayloads}
 Seconds  == {c \in Chunks : Len(c) <= 1}
 Scripts  ==
-       {<<[b |-> p, e |-> e]>> : p \in Chunks, e \in {"EOF", "boom"}}
+       {<<[b |-> p, e |-> e]>> : p \in Chunks, e \in RErrs}
   \cup {<<[b |-> <<>>, e |-> "neg"]>>}
-  \cup {<<[b |-> p, e |-> "nil"], [b |-> q, e |-> e]>> : p \in Firsts, q \in Seconds, e \in {"EOF", "boom", "neg"}}
+  \cup {<<[b |-> p, e |-> "nil"], [b |-> q, e |-> e]>> : p \in Firsts, q \in Seconds, e \in RErrs \cup {"neg"}}
 
 AllOps == {"write", "wstr", "wbyte", "wrune", "read", "next", "trunc", "grow", "rbyte", "rrune", "unbyte",
-           "unrune", "reset", "growhuge", "len", "bytes", "string", "nilstr", "readfrom", "writeto", "rewrite"}
+           "unrune", "reset", "growhuge", "len", "bytes", "string", "nilstr", "readfrom", "writeto", "rewrite",
+           "poke", "pipefrom", "pipeto"}
+Allocatable(n) == n <= 65536     \* Read(make([]byte, n)) and a Grow(n) that succeeds really allocate
 ActsOf(op) ==
   CASE op \in {"write", "wstr"} -> [op : {op}, p : Payloads]
     [] op = "wbyte"    -> [op : {op}, c : Alphabet]
     [] op = "wrune"    -> [op : {op}, r : Runes]
-    [] op = "read"     -> [op : {op}, n : {n \in Sizes : n >= 0}]
-    [] op \in {"next", "trunc", "grow"} -> [op : {op}, n : Sizes]
+    [] op = "read"     -> [op : {op}, n : {n \in Sizes : n >= 0 /\ Allocatable(n)}]
+    [] op = "grow"     -> [op : {op}, n : {n \in Sizes : Allocatable(n)}]
+    [] op \in {"next", "trunc"} -> [op : {op}, n : Sizes]
+    [] op = "growhuge" -> [op : {op}, h : 0..4]          \* which unsatisfiable size (harness table); all alike here
+    [] op = "poke"     -> [op : {op}, i : {n \in Sizes : n >= 0 /\ Allocatable(n)}, c : Alphabet]
+    [] op \in {"pipefrom", "pipeto"} -> [op : {op}, p : Payloads]
     [] op = "readfrom" -> [op : {op}, s : Scripts]
-    [] op = "writeto"  -> [op : {op}, k : {n \in Sizes : n >= 0}, e : {"nil", "boom"}]
+    [] op = "writeto"  -> [op : {op}, k : {n \in Sizes : n >= 0}, e : WErrs]
     [] op = "rewrite"  -> [op : {op}, pos : Sizes, p : Payloads]
     [] OTHER           -> [op : {op}]
 Acts == UNION {ActsOf(op) : op \in AllOps}
 
-Init == \E c \in {"zero", "new", "newstr", "sized"}, p \in Payloads, z \in {n \in Sizes : n >= 0} :
+Init == \E c \in {"zero", "new", "newstr", "sized"}, p \in Payloads, z \in {n \in Sizes : n >= 0 /\ Allocatable(n)} :
           InitWith(c, IF c \in {"new", "newstr"} THEN p ELSE <<>>, IF c = "sized" THEN z ELSE 0)
 Next == \E a \in Acts : Step(a)
 Spec == Init /\ [][Next]_allvars
@@ -271,17 +295,18 @@ PrevOK ==
 (* ReWrite is only defined where no Unread* is pending *)
 CleanNoUnread == ~dirty => lr = 0
 
-WriteOps == {"write", "wstr", "wbyte", "wrune", "readfrom"}
+WriteOps == {"write", "wstr", "wbyte", "wrune", "readfrom", "pipefrom"}
 ReadOps  == {"read", "next", "rbyte", "rrune"}
 Queries  == {"len", "bytes", "string", "nilstr"}
-IsPanic(r) == r.err \notin {"nil", "EOF", "boom", "short write", ErrUnreadByte, ErrUnreadRune}
+IsPanic(r) == r.err \in {Panic(m).err : m \in {"runtime error", MsgTruncate, MsgGrowNeg, MsgTooLarge, MsgNegRead,
+                                                MsgBadWrite, MsgReaderBang, MsgWriterBang}}
 
 (* writes append (never touch what is already there) and invalidate Unread* *)
 WritesAppend ==
   [][last'.op \in WriteOps =>
        /\ Len(data') >= Len(data) /\ Take(data', Len(data)) = data
        /\ lr' = 0
-       /\ last'.op \in {"write", "wstr"} => Drop(data', Len(data)) = last'.p /\ rep'.n = Len(last'.p)
+       /\ last'.op \in {"write", "wstr", "pipefrom"} => Drop(data', Len(data)) = last'.p /\ rep'.n = Len(last'.p)
        /\ last'.op = "wbyte" => Drop(data', Len(data)) = <<last'.c>>
     ]_allvars
 
@@ -331,6 +356,17 @@ WriteToDrains ==
        /\ data # <<>> => rep'.b = data /\ data' = Drop(data, rep'.n) /\ rep'.v = 1
        /\ rep'.err = "nil" => data' = <<>>
     ]_allvars
+
+(* writing through the slice Bytes() returned changes exactly that byte of the unread content *)
+PokeExact ==
+  [][last'.op = "poke" =>
+       /\ Len(data') = Len(data) /\ UNCHANGED <<lr, prev, ag, dirty>>
+       /\ \A j \in 1..Len(data) : data'[j] = IF j = last'.i + 1 THEN last'.c ELSE data[j]
+    ]_allvars
+
+(* WriteTo into another buffer moves everything there and leaves this one empty *)
+PipeMoves ==
+  [][last'.op = "pipeto" => data' = <<>> /\ lr' = 0 /\ rep'.b = last'.p \o data /\ rep'.n = Len(data)]_allvars
 
 (* ReWrite changes exactly the addressed bytes that exist *)
 ReWriteExact ==
